@@ -186,6 +186,11 @@ def gen_char(ctx: Ctx, in_range: bool, in_set: bool) -> List[str]:
     return [str(ord(c)), "0"]
 
 
+#: switched on by C16's own streams only: the other checks that borrow the generators (C13, C17, C18) expand the repetitions
+#: (greenery, the VM translation) and would not survive a count of 2**32 - 2
+BIG_COUNTS = [False]
+
+
 def gen_quant(ctx: Ctx) -> List[str]:
     r = ctx.rng.random()
     ng = "1" if ctx.rng.random() < 0.3 else "0"
@@ -194,6 +199,10 @@ def gen_quant(ctx: Ctx) -> List[str]:
     else:
         mn = ctx.rng.choice([0, 0, 1, 2, 3, 3, 10] if ctx.rng.random() < 0.9 else [17, 100, 1234])
         mx = ctx.rng.choice([None, mn, mn + 1, mn + 2, mn + 2, mn + 13 if mn > 3 else mn + 3])
+        if BIG_COUNTS[0] and ctx.rng.random() < 0.03:
+            # around the largest repetition count (2**32 - 2); larger ones are outside the image of the parser
+            big = ctx.rng.choice([4294967293, 4294967294, 4294967294, 4294967295, 4294967296, 10**20])
+            mn, mx = ctx.rng.choice([(big, big), (mn, big), (big, None), (big, big + 1)])
     return ["q", ng, str(mn), "x" if mx is None else str(mx)]
 
 
@@ -301,6 +310,26 @@ def mutate(ctx: Ctx, parts: Parts) -> Parts:
     return regroup(toks)
 
 
+_BRACKET_FIRST_RE = re.compile(r"(?<!\\)((?:\\\\)*)\[(\^?)\\\]")
+
+
+def bracket_first(parts: Parts) -> Optional[Parts]:
+    """
+    The renderer always writes a closing bracket in a set as ``\\]``; this rewrites ``[\\]`` / ``[^\\]`` to ``[]`` / ``[^]``
+    (the bracket is the first member, which Python's re reads as a literal) — ``None`` if there is no such set.
+    """
+    out: Parts = []
+    changed = False
+    for p in parts:
+        if isinstance(p, str):
+            q = _BRACKET_FIRST_RE.sub(lambda m: m.group(1) + "[" + m.group(2) + "]", p)
+            changed = changed or q != p
+            out.append(q)
+        else:
+            out.append(p)
+    return out if changed else None
+
+
 def regroup(toks: Sequence[Union[str, int]]) -> Parts:
     out: Parts = []
     for t in toks:
@@ -320,6 +349,14 @@ ENCODING_SEEDS = [
     "\\s", "\\S", "\\w", "\\W", "\\d", "\\D", "[\\s]", "[\\w]", "[\\d]", "[\\D]", "\\", "[\\", "\\q", "[\\q]", "\\|", "\\-", "[\\-]", "\\#", "\\{", "\\}",
     "a{²}", "a{٣}", "a{1,٣}", "a{ 1 }", "a{1 ,2}", "a{\t1}", "a{1, 2}", "a{01}", "a{007,010}", "a{,}", "a{}", "a{,3}", "a{3,}", "a{3,}?", "a{2,1}", "a{1,1}", "a{0,1}", "a{0}", "a{0,0}?",
     "a{4294967295}", "a{99999999999999999999}",
+    # the repetition counts around the limit of Python's re (2**32 - 1 and more are errors of the pattern since fix 8f5e6f83)
+    "a{4294967294}", "a{4294967294,}", "a{0,4294967294}", "a{4294967294,4294967294}?", "a{4294967296}", "a{0,4294967295}", "a{4294967295,}",
+    "a{,4294967295}", "a{4294967295,1}", "a{4294967294,4294967295}", "a{ 4294967295 }", "(ab){04294967295}", "a{4294967293,4294967294}",
+    # more digits than int() converts (ValueError before fix 82ce1998)
+    "a{" + "1" * 4301 + "}", "a{1," + "9" * 4400 + "}", "a{" + "0" * 4400 + "7}",
+    # a closing bracket in the first position is a member of the set (since fix 8785af5a), in every other position it closes the set
+    "[]a]", "[^]a]", "[]-a]", "[]]", "[^]]", "[]-]", "[-]]", "[^-]]", "[]a", "[^]a", "[]-", "[]\\]", "[]a-]", "[]-]]", "[]]]", "[][]", "[]-\\x5d]",
+    "[]-\\x5c]", "[]\\]]", "[\\]]]", "^[]a]$", "([]a]|[^]b])*", "[]a]{2}", "[]\\x5d]", "[a]]", "[]^]", "[]^-a]", "[^]^]", "[ ]]", "[]\U0001f600]", "[^]\U0001f600]",
 ] + [
     # every {m,n} / {m,} / {,n} / {m} bound combination over small and boundary values, greedy and non-greedy, on a char and on a group
     f"{t}{{{m},{n}}}{q}" for t in ("a", "(ab)") for m in ("", "0", "1", "2", "5") for n in ("", "0", "1", "2", "5") for q in ("", "?")
@@ -357,7 +394,11 @@ def inputs(ctx: Ctx) -> Iterator[Tuple[Parts, str]]:
     n = ctx.n(700, 6000)
     for i in range(n):
         fv = i % 4 == 0
-        wire = ",".join(gen_union(ctx, 2, True, fv))
+        BIG_COUNTS[0] = True
+        try:
+            wire = ",".join(gen_union(ctx, 2, True, fv))
+        finally:
+            BIG_COUNTS[0] = False
         try:
             parts = impl_render(build_tree(wire))
         except BaseException:  # constructor preconditions (never expected for in_range trees)
@@ -365,6 +406,10 @@ def inputs(ctx: Ctx) -> Iterator[Tuple[Parts, str]]:
         if isinstance(parts, str):
             continue
         yield parts, "rendered-trees-fv" if fv else "rendered-trees"
+        raw = bracket_first(parts)
+        if raw is not None:
+            yield raw, "bracket-first"
+            yield mutate(ctx, raw), "near-miss-bracket-first"
         for _ in range(2):
             yield mutate(ctx, parts), "near-miss-fv" if fv else "near-miss"
     for s in ENCODING_SEEDS:
@@ -501,6 +546,23 @@ def _compile(p: str) -> Any:
             return re.compile(p)
     except (re.error, OverflowError, RecursionError) as e:
         return e
+    except ValueError as e:
+        # CPython's guard on int(<more than 4300 digits>) inside re's own parser is no verdict about the pattern
+        # (``a{000…07}``): ask again without the guard.
+        import sys
+
+        if "integer string conversion" not in str(e):
+            raise
+        limit = sys.get_int_max_str_digits()
+        sys.set_int_max_str_digits(0)
+        try:
+            with warnings.catch_warnings():
+                warnings.simplefilter("ignore")
+                return re.compile(p)
+        except (re.error, OverflowError, RecursionError) as e2:
+            return e2
+        finally:
+            sys.set_int_max_str_digits(limit)
 
 
 def judge(ctx: Ctx, parts: Parts) -> Tuple[Tuple[str, Any], List[Tuple[str, str]]]:
